@@ -12,6 +12,7 @@ from mc.common import HarnessError, VERIF, scratch_root
 ID = "C14"
 LEVEL = "model_checking"
 ENGINE = "E3"
+# (oracle addition: a second perform_matching() on the same object must repeat the first result in every explored history)
 TECHNIQUE = "TLC model checking of a TLA+ model of the global configuration with every model transition replayed on the implementation, plus explicit-state search (BFS to fixpoint, deduplicated on a canonical snapshot of all process-global jasm state) over operation histories executed on the real code by a pristine fork server, plus stateless enumeration of ALL histories up to depth 3 (4); every state's trace re-validated in a fresh interpreter"
 RULE = ("operations: a menu of complete compile-and-match operations through the public API chosen so that every piece of "
         "global state collides: full-match flags on/off in both rules sharing one rule path, two different valid_addr "
@@ -125,6 +126,11 @@ def run_tree(shard, tier, h, res, known):
         if node["outcome"] != base[hist[-1]]:
             res.fail({"clause": "history", "family": "tree", "history": hist, "expected": base[hist[-1]], "observed": node["outcome"],
                       "size": len(hist)}, known)
+        elif node["outcome"][0] == "ok" and node["outcome"][2] is not True:
+            # "repeating an operation gives the same result" does not depend on any baseline: the second perform_matching()
+            # of the same object differed from the first (also when it does so in a fresh process)
+            res.fail({"clause": "repeat", "family": "tree", "history": hist, "expected": "the same result from a second perform_matching() on the same object",
+                      "observed": node["outcome"], "size": len(hist)}, known)
     if n == 0:
         raise HarnessError("tree explorer produced no nodes")
     if len(res.samples) < 1:
@@ -350,6 +356,9 @@ def replay(case, h):
         finally:
             srv.close()
         return (f["outcomes"], f["snapshots"]) != (d["outcomes"], d["snapshots"]), f"fork server: {f['outcomes']} fresh: {d['outcomes']}"
+    if case.get("clause") == "repeat":
+        out = d["outcomes"][-1]
+        return out[0] == "ok" and out[2] is not True, f"outcome {out}"
     wd2 = h.path("replay_base")
     history.prepare_workdir(wd2)
     b = json.loads(subprocess.run([PY, HIST, "one", wd2, hist[-1]], capture_output=True, text=True, env=_env()).stdout.strip().split("\n")[-1])
